@@ -44,10 +44,20 @@ def enc_tile(t):
     return "None" if t is None else f"{int(t[0])},{int(t[1])}"
 
 
+def uget(u, name):
+    """attribute of a unit; an attribute the scenario version does not have reads as None"""
+    try:
+        return getattr(u, name)
+    except Exception as e:
+        if type(e).__name__ == "UnsupportedAttributeError":
+            return None
+        raise
+
+
 def unit_tuple(u):
     return (int(u.reference_id), int(u.player), enc_num(u.x), enc_num(u.y), enc_num(u.z), enc_num(u.rotation),
             int(u.unit_const), int(u.status), int(u.initial_animation_frame), int(u.garrisoned_in_id),
-            int(u.caption_string_id))
+            "N" if uget(u, "caption_string_id") is None else int(u.caption_string_id))
 
 
 class H:
@@ -90,7 +100,8 @@ class Session:
             self.pre = [["add", {"player": int(u.player), "unit_const": int(u.unit_const), "x": u.x, "y": u.y, "z": u.z,
                                  "rotation": u.rotation, "garrisoned_in_id": int(u.garrisoned_in_id),
                                  "animation_frame": int(u.initial_animation_frame), "status": int(u.status),
-                                 "reference_id": int(u.reference_id), "caption_string_id": int(u.caption_string_id),
+                                 "reference_id": int(u.reference_id),
+                                 "caption_string_id": None if uget(u, "caption_string_id") is None else int(u.caption_string_id),
                                  "tile": None}] for u in self.objs]
         self.sid = len(h.sessions)
         self.base = {"next": self.k, "units": [list(unit_tuple(u)) for u in self.objs]}
@@ -219,8 +230,8 @@ class Session:
         if a["tile"] is not None:
             want["x"], want["y"] = a["tile"][0] + .5, a["tile"][1] + .5
         for k in CLONE_PARAMS + ["caption_string_id"]:
-            if getattr(u, ATTR[k]) != want[k]:
-                self.violation({"clause": "add_attr", "op": "add", "param": k}, f"add_unit({k}={want[k]!r}) gives {getattr(u, ATTR[k])!r}")
+            if uget(u, ATTR[k]) != want[k]:
+                self.violation({"clause": "add_attr", "op": "add", "param": k}, f"add_unit({k}={want[k]!r}) gives {uget(u, ATTR[k])!r}")
         if a["reference_id"] is None:
             self.check_auto(u.reference_id, "add")
         elif int(u.reference_id) != a["reference_id"]:
@@ -232,7 +243,7 @@ class Session:
         src_h, c = op[1], dict(op[2])
         as_enum = c.pop("_enum", False)
         src = self.objs[src_h]
-        src_before = {k: getattr(src, ATTR[k]) for k in CLONE_PARAMS + ["caption_string_id", "reference_id"]}
+        src_before = {k: uget(src, ATTR[k]) for k in CLONE_PARAMS + ["caption_string_id", "reference_id"]}
         before = self.snapshot()
         kw = dict(c)
         if kw.get("player") is not None:
@@ -278,16 +289,16 @@ class Session:
             elif got != src_before[k]:
                 self.violation({"op": "clone_unit", "clause": "inherits_rest", "param": k},
                                f"clone_unit without {k}: original has {src_before[k]!r}, clone {got!r}")
-        if u.caption_string_id != src_before["caption_string_id"]:
+        if uget(u, "caption_string_id") != src_before["caption_string_id"]:
             self.violation({"op": "clone_unit", "clause": "inherits_rest", "param": "caption_string_id"},
-                           f"clone of a unit with caption_string_id={src_before['caption_string_id']!r} has {u.caption_string_id!r}")
+                           f"clone of a unit with caption_string_id={src_before['caption_string_id']!r} has {uget(u, 'caption_string_id')!r}")
         if c.get("reference_id") is None:
             self.check_auto(u.reference_id, "clone")
         elif int(u.reference_id) != c["reference_id"]:
             self.violation({"op": "clone_unit", "clause": "carries_supplied", "param": "reference_id", "value": "id"},
                            "explicit reference_id not used")
         for k, v in src_before.items():
-            if getattr(src, ATTR[k]) != v:
+            if uget(src, ATTR[k]) != v:
                 self.violation({"op": "clone_unit", "clause": "source_unchanged", "param": k}, "clone_unit modified the original")
         after = self.snapshot()
         p = int(u.player)
@@ -764,4 +775,83 @@ def run(ctx):
         R.extra["sessions"] = len(h.sessions)
     finally:
         shutil.rmtree(h.tmp, ignore_errors=True)
+    # ---- (d) the same oracles on scenarios of the older versions (one process per version) --------------------------
+    from harness import bases, vworker, codec_common as cc
+    vs = [v for v in bases.versions() if v != bases.versions()[-1]]
+    pick = vs if not ctx.quick else sorted({vs[0], vs[len(vs) // 2], vs[-1], rng.choice(vs)})
+    per = vworker.run_versions("h_c10", "version_worker", pick,
+                               {"seed": ctx.seed, "driver": ctx.driver_path, "nseq": ctx.budget(40, 300), "stride": 27 if ctx.quick else 3})
+    cc.merge_results(R, per, "C10")
+    R.extra["older_versions"] = pick
     return R.to_json(exhaustive=True)
+
+
+class _Ctx:
+    quick = True
+
+
+def version_worker(version, args):
+    """oracles only (no model line): clone grid sample, random sequences, one real save + reload on a scenario of `version`"""
+    import random
+    from harness import bases, codec_common as cc
+    common.lib_setup()
+    from AoE2ScenarioParser.scenarios.aoe2_de_scenario import AoE2DEScenario
+    rng = random.Random(f"C10v:{args['seed']}:{version}")
+    R = common.Result("older versions"); R.export_keys = True
+    h = H(_Ctx()); h.R = R
+    h.tmp = tempfile.mkdtemp(prefix="c10v_")
+    try:
+        base = bases.base_file(version, args.get("driver"))
+        with cc.quiet():
+            scn = AoE2DEScenario.from_file(base)
+        src = {"player": 3, "unit_const": 4, "x": 5, "y": 6.5, "z": 2, "rotation": 1.5, "garrisoned_in_id": 9,
+               "animation_frame": 3, "status": 5, "reference_id": None, "caption_string_id": None, "tile": None}
+        s = Session(h, scn, keep=False, record=False, label=f"v{version}-clone")
+        s.record_cases = True
+        s.do(["add", src])
+        for n, combo in enumerate(itertools.product((0, 1, 2), repeat=9)):
+            if n % args["stride"] != (args["seed"] % args["stride"]):
+                continue
+            c = {}
+            for i, (k, sel) in enumerate(zip(CLONE_PARAMS, combo)):
+                if sel:
+                    c[k] = (0 if sel == 1 else 1) if k not in FLOATY else ([0, 0.0, -0.0][(n + i) % 3] if sel == 1 else [1, 1.5, 7.25][(n + i) % 3])
+            c["_enum"] = bool(n & 1)
+            u = s.do(["clone", 0, c])
+            R.case(key=f"clone:{n}", nontrivial=bool(c), tags=("older:clone",))
+            if u is not None:
+                s.do(["remove_obj", len(s.objs) - 1])
+        sessions = [s]
+        for i in range(args["nseq"]):
+            t = Session(h, scn, keep=i > 0 and rng.random() < 0.35, record=False, label=f"v{version}-seq{i}")
+            for _ in range(rng.choice([6, 12, 25])):
+                op = rnd_op(rng, t)
+                if op[0] == "add":
+                    op[1]["caption_string_id"] = None        # the attribute does not exist before 1.54
+                t.do(op)
+                R.case(key=f"seq{i}:{len(t.ops)}", nontrivial=True, tags=("older:" + op[0],))
+            sessions.append(t)
+        with cc.quiet():
+            scn2 = AoE2DEScenario.from_file(base)
+        t = Session(h, scn2, keep=False, counter=int(scn2.sections['DataHeader'].next_unit_id_to_place), record=False,
+                    label=f"v{version}-file", kindinfo={"kind": "seq", "fresh": True})
+        for _ in range(12):
+            op = rnd_op(rng, t)
+            if op[0] == "add":
+                op[1]["caption_string_id"] = None
+                if rng.random() < 0.7:
+                    op[1]["reference_id"] = None
+            t.do(op)
+        t.do(["savefile"])
+        R.case(key="file", nontrivial=True, tags=("older:savefile",))
+        sessions.append(t)
+        seen = {}
+        for ss in sessions:
+            for v in ss.violations:
+                seen.setdefault(json.dumps(v["signature"], sort_keys=True), v)
+        for v in seen.values():
+            v["replay"]["version"] = version
+            R.violation(v["signature"], f"version {version}: " + v["what"], v["replay"])
+        return R.to_json()
+    finally:
+        shutil.rmtree(h.tmp, ignore_errors=True)
